@@ -887,9 +887,9 @@ def m_try_branch(ex, st, call, args):
             if known is None:
                 s2.assume(d, vals[name])
             if name == ok:
-                yield s2, "ret", ("adt", CF, "Continue", (("field", ("as", cv, ok), 0),))
+                yield s2, "ret", ("adt", CF, "Continue", (("field", ("as", cv, ok), "0"),))
             else:
-                res = ("adt", head, "Err", (("field", ("as", cv, "Err"), 0),)) if head.endswith("Result") else ("adt", head, "None", ())
+                res = ("adt", head, "Err", (("field", ("as", cv, "Err"), "0"),)) if head.endswith("Result") else ("adt", head, "None", ())
                 yield s2, "ret", ("adt", CF, "Break", (res,))
     return gen()
 
